@@ -200,7 +200,12 @@ def _dynamic(spec, res, feats, tmp, Export):
     grav_p = Force(np.array([0, 0, -9.81]) * 0.7, pm, name="grav_pm")
     tpi = sysbuild.make_tpi({"B1": [0.0, 0.0, 2.0], "B2": [0.05, 0.0, 0.0], "name": "tpi"}, system.origin, ball)
     spring = sysbuild.make_force_law({"type": "Spring", "k": spec["k"], "l_ref": 1.5, "compliance": False}, tpi)
-    system.add(ball, pm, mover, ground, contact, link, grav_b, grav_p, tpi, spring)
+    # a meshed frame (a box carried by the prescribed motion of `mover`), exported as a mesh
+    from cardillo.discrete import Box
+    mf_ = build.motion_functions(spec["motion"])
+    table = Box(Frame)(dimensions=[0.8, 0.5, 0.1], r_OP=mf_["r"], r_OP_t=mf_["r_t"], r_OP_tt=mf_["r_tt"], A_IB=mf_["A"],
+                       A_IB_t=mf_["A_t"], A_IB_tt=mf_["A_tt"], name="table")
+    system.add(ball, pm, mover, ground, contact, link, grav_b, grav_p, tpi, spring, table)
     if b2:
         system.add(ball2, contact2, grav_b2)
     with quiet():
@@ -222,6 +227,7 @@ def _dynamic(spec, res, feats, tmp, Export):
         e.export_contr(link)
         e.export_contr(spring)
         e.export_contr([grav_b, grav_p], file_name="gravity")
+        e.export_contr(table)
         if b2:
             e.export_contr([contact, contact2], file_name="contacts")
         if spec.get("same_name"):
@@ -262,6 +268,11 @@ def _dynamic(spec, res, feats, tmp, Export):
         _cmp(res, "vectors_equal_state:v", "Frame", feats, cd.get("v"), [mot["r_t"](t[k])], f"row {k}")
         _cmp(res, "vectors_equal_state:Omega", "Frame", feats, cd.get("Omega"), [A @ Bw], f"row {k}")
         _cmp(res, "vectors_equal_state:ex", "Frame", feats, cd.get("ex"), [A[:, 0]], f"row {k}")
+    # ---- meshed frame: every vertex follows the prescribed motion -----------------------------------------
+    Bv = np.asarray(table.B_r_CQi_T, dtype=float)
+    for k, p in _frames(res, "Meshed(Frame)", feats, folder, "table", t):
+        pts, _, _ = read_vtu(p)
+        _cmp(res, "points_equal_geometry", "Meshed(Frame)", feats, pts, (mot["r"](t[k])[:, None] + mot["A"](t[k]) @ Bv).T, f"row {k}")
     # ---- contact -----------------------------------------------------------------------------------
     P_N, P_F = np.asarray(sol.P_N), (np.asarray(sol.P_F) if sol.P_F is not None else None)
 
